@@ -35,6 +35,11 @@ Local Notation put := (@put A cmp repl).
 Local Notation blacken := (@blacken A).
 Local Notation tput := (@tput A cmp repl).
 Local Notation tremove := (@tremove A cmp merge).
+Local Notation tmax := (@tmax A).
+Local Notation check_red := (@check_red A).
+Local Notation check_black := (@check_black A).
+Local Notation check_llrb := (@check_llrb A).
+Local Notation check_model := (@check_model A).
 Notation "'do' x <- m ; f" := (bind m (fun x => f)) (at level 200, x pattern, m at level 100, f at level 200).
 
 Variable KV : Type.
@@ -670,6 +675,106 @@ Proof. intros (Hb & (m & Hv) & Hs). unfold tremove.
   destruct (rem_elems _ _ _ _ _ He Hs) as (F & Eb). exists (blacken t'), b. split; [reflexivity|]. rewrite !el_blacken.
   split; [|split; auto]. split; [destruct t'; reflexivity|]. split; [eauto|]. rewrite el_blacken.
   apply (sorted_forall2 (del k (elements t))); [exact F | apply sorted_del; exact Hs]. Qed.
+
+(* ================= exact contents after insertion ================= *)
+(* sorted-list insertion in which an equal element a is overwritten by (repl a n): the stored key object stays *)
+Fixpoint insr (n:A) (l:list A) : list A :=
+  match l with [] => [n] | a :: r => match cmp n a with Lt => n :: a :: r | Eq => repl a n :: r | Gt => a :: insr n r end end.
+Lemma insr_app_lt n a A0 B : cmp n a = Lt -> insr n (A0 ++ a :: B) = insr n A0 ++ a :: B.
+Proof. intros H. induction A0 as [|z A0 IH]; cbn; [now rewrite H|]. destruct (cmp n z); auto. now rewrite IH. Qed.
+Lemma insr_app_ge n a A0 B : Forall (fun z => cmp n z = Gt) A0 -> insr n (A0 ++ a :: B) = A0 ++ insr n (a :: B).
+Proof. induction 1 as [|z A0 Hz _ IH]; [reflexivity|]. cbn [app insr]. rewrite Hz. now rewrite IH. Qed.
+Theorem put_elems_exact : forall fuel t n t', put fuel t n = Ok t' -> sorted (elements t) -> elements t' = insr n (elements t).
+Proof.
+  induction fuel as [|f IH]; intros t n t' H Hs; [discriminate|]. destruct t as [|c l x r].
+  { cbn in H. inversion H; subst. reflexivity. }
+  cbn [TreeModel.put] in H. remember (T c l x r) as o eqn:Eo.
+  apply bind_ok in H as (o1 & H1 & H).
+  assert (E1: elements o1 = elements o /\ rootk o1 = rootk o).
+  { destruct (is_red (left o) && is_red (right o)); [destruct (root_flip _ _ H1) as (A1 & _ & _); split; [apply el_flip; auto|auto] | inversion H1; auto]. }
+  destruct E1 as (E1 & R1). destruct o1 as [|c1 l1 x1 r1]; [discriminate|].
+  assert (x1 = x) by (rewrite Eo in R1; cbn in R1; congruence). subst x1.
+  assert (Hs1: sorted (elements l1 ++ x :: elements r1)) by (cbn [TreeModel.elements] in E1; rewrite E1; exact Hs).
+  destruct (sorted_app _ _ _ Hs1) as (Sl & Sr & Fl & Fr). cbn [TreeModel.elements] in E1. rewrite <- E1.
+  destruct (cmp n x) eqn:Hc.
+  - apply el_put_up in H. rewrite H. cbn [TreeModel.elements].
+    rewrite insr_app_ge by (apply (below_gt n x); auto; congruence). cbn [insr]. rewrite Hc. reflexivity.
+  - apply bind_ok in H as (l' & Hl & H). apply el_put_up in H. rewrite H. cbn [TreeModel.elements].
+    rewrite insr_app_lt by auto. f_equal. apply IH; auto.
+  - apply bind_ok in H as (r' & Hr & H). apply el_put_up in H. rewrite H. cbn [TreeModel.elements].
+    rewrite insr_app_ge by (apply (below_gt n x); auto; congruence). cbn [insr]. rewrite Hc. do 2 f_equal. apply IH; auto.
+Qed.
+Lemma tput_elems_exact t n t' : tput t n = Ok t' -> sorted (elements t) -> elements t' = insr n (elements t).
+Proof. unfold TreeModel.tput. intros H Hs. apply bind_ok in H as (t1 & H1 & H). inversion H; subst. rewrite el_blacken. eapply put_elems_exact; eauto. Qed.
+
+(* ================= lookups ================= *)
+Fixpoint lfind (k:A) (l:list A) : option A :=
+  match l with [] => None | a :: r => match cmp k a with Lt => None | Eq => Some a | Gt => lfind k r end end.
+Lemma lfind_app_lt k a A0 B : cmp k a = Lt -> lfind k (A0 ++ a :: B) = lfind k A0.
+Proof. intros H. induction A0 as [|z A0 IH]; cbn; [now rewrite H|]. destruct (cmp k z); auto. Qed.
+Lemma lfind_app_ge k a A0 B : Forall (fun z => cmp k z = Gt) A0 -> lfind k (A0 ++ a :: B) = lfind k (a :: B).
+Proof. induction 1 as [|z A0 Hz _ IH]; [reflexivity|]. cbn [app lfind]. now rewrite Hz. Qed.
+Theorem find_spec t k : sorted (elements t) -> find cmp t k = lfind k (elements t).
+Proof. induction t as [|c l IHl x r IHr]; [reflexivity|]. cbn [TreeModel.elements TreeModel.find]. intros Hs.
+  destruct (sorted_app _ _ _ Hs) as (Sl & Sr & Fl & Fr). destruct (cmp k x) eqn:Hc.
+  - rewrite lfind_app_ge by (apply (below_gt k x); auto; congruence). cbn [lfind]. rewrite Hc. reflexivity.
+  - rewrite lfind_app_lt by auto. auto.
+  - rewrite lfind_app_ge by (apply (below_gt k x); auto; congruence). cbn [lfind]. rewrite Hc. auto.
+Qed.
+Lemma mem_lfind k l : mem k l = match lfind k l with Some _ => true | None => false end.
+Proof. induction l as [|a l IH]; [reflexivity|]. cbn. destruct (cmp k a); auto. Qed.
+Lemma tmax_last t : tmax t = hd_error (rev (elements t)).
+Proof. induction t as [|c l IHl x r IHr]; [reflexivity|]. cbn [TreeModel.tmax TreeModel.elements]. rewrite rev_app_distr. cbn [rev]. rewrite <- app_assoc. cbn [app].
+  destruct r as [|cr rl rx rr]; [reflexivity|]. rewrite IHr. destruct (rev (elements (T cr rl rx rr))) eqn:E0; [|reflexivity].
+  apply (f_equal (@length A)) in E0. rewrite rev_length in E0. cbn in E0. rewrite app_length in E0. cbn in E0. lia. Qed.
+
+(* ================= the library's self-check agrees with the invariant ================= *)
+Lemma check_red_valid n t : valid n t -> check_red t = false.
+Proof. induction 1 as [|n l x r Hl IHl Hr IHr El Er|n l x r Hl IHl Hr IHr Hc]; cbn [TreeModel.check_red]; [reflexivity| |]; rewrite ?IHl, ?IHr, ?El, ?Er; reflexivity. Qed.
+Lemma check_black_valid n t : valid n t -> check_black t = Some (S n).
+Proof. induction 1 as [|n l x r Hl IHl Hr IHr El Er|n l x r Hl IHl Hr IHr Hc]; cbn [TreeModel.check_black]; [reflexivity| |]; rewrite IHl, IHr, Nat.eqb_refl; reflexivity. Qed.
+Lemma check_llrb_valid n t : valid n t -> check_llrb t = false.
+Proof. induction 1 as [|n l x r Hl IHl Hr IHr El Er|n l x r Hl IHl Hr IHr Hc]; cbn [TreeModel.check_llrb]; [reflexivity| |]; rewrite IHl, IHr.
+  - rewrite Er. reflexivity.
+  - destruct (is_red r) eqn:Er; [rewrite (Hc eq_refl)|]; reflexivity. Qed.
+Theorem check_model_ok n t : is_red t = false -> valid n t -> check_model t = 0.
+Proof. intros Hb Hv. unfold TreeModel.check_model. rewrite Hb, (check_red_valid _ _ Hv), (check_black_valid _ _ Hv), (check_llrb_valid _ _ Hv). reflexivity. Qed.
+(* and conversely: a tree the self-check accepts is a valid red-black structure with a black root *)
+Lemma check_complete t : forall p, check_red t = false -> check_black t = Some p -> check_llrb t = false ->
+  exists n, valid n t /\ p = S n.
+Proof. induction t as [|c l IHl x r IHr]; intros p Hr Hb Hl; cbn [TreeModel.check_red TreeModel.check_black TreeModel.check_llrb] in *.
+  - inversion Hb; subst. exists 0. split; [constructor|reflexivity].
+  - apply orb_false_iff in Hr as [Hr Hrl]. apply orb_false_iff in Hr as [Hr0 Hrr].
+    apply orb_false_iff in Hl as [Hl Hll]. apply orb_false_iff in Hl as [Hl0 Hlr].
+    destruct (check_black r) as [pr|] eqn:Br; [|discriminate]. destruct (check_black l) as [pl|] eqn:Bl; [|discriminate].
+    destruct (Nat.eqb pr pl) eqn:Epl; [|discriminate]. apply Nat.eqb_eq in Epl. subst pl.
+    destruct (IHl pr Hrl eq_refl Hll) as (nl & Vl & El). destruct (IHr pr Hrr eq_refl Hlr) as (nr & Vr & Er).
+    assert (nl = nr) by lia. subst nl. destruct c.
+    + cbn in Hr0. apply orb_false_iff in Hr0 as [R1 R2]. inversion Hb; subst. exists nr. split; [apply vR; auto|reflexivity].
+    + inversion Hb; subst. exists (S nr). split; [|reflexivity]. apply vB; auto. intros Rr. rewrite Rr in Hl0. cbn in Hl0.
+      destruct (is_red l); [reflexivity|discriminate].
+Qed.
+Theorem check_model_complete t : check_model t = 0 -> is_red t = false /\ exists n, valid n t.
+Proof. unfold TreeModel.check_model. destruct (is_red t) eqn:Hb; [discriminate|]. destruct (check_red t) eqn:Hr; [discriminate|].
+  destruct (check_black t) as [p|] eqn:Hk; [|discriminate]. destruct (check_llrb t) eqn:Hl; [discriminate|]. intros _.
+  destruct (check_complete t p Hr Hk Hl) as (n & Hv & _). split; [reflexivity|]. exists n. exact Hv. Qed.
+
+(* ================= logarithmic lookups ================= *)
+Lemma valid_size n t : valid n t -> 2 ^ n <= size t + 1.
+Proof. induction 1 as [|n l x r Hl IHl Hr IHr El Er|n l x r Hl IHl Hr IHr Hc]; cbn [TreeModel.size]; [cbn; lia|lia|].
+  rewrite Nat.pow_succ_r'. lia. Qed.
+Lemma find_cost_valid n t k : valid n t -> find_cost cmp t k <= 2 * n + (if is_red t then 1 else 0).
+Proof. induction 1 as [|n l x r Hl IHl Hr IHr El Er|n l x r Hl IHl Hr IHr Hc]; cbn [TreeModel.find_cost TreeModel.is_red]; [lia| |].
+  - rewrite El in IHl. rewrite Er in IHr. destruct (cmp k x); lia.
+  - destruct (is_red l), (is_red r), (cmp k x); lia. Qed.
+(* at most 2*log2(n+1) comparisons, stated without logarithms: 2^cost <= (n+1)^2 *)
+Theorem find_cost_log t k : is_red t = false -> (exists n, valid n t) -> 2 ^ (find_cost cmp t k) <= (size t + 1) * (size t + 1).
+Proof. intros Hb (n & Hv). pose proof (find_cost_valid n t k Hv) as Hc. rewrite Hb in Hc. pose proof (valid_size n t Hv) as Hs.
+  assert (2 ^ (find_cost cmp t k) <= 2 ^ (2 * n)) by (apply Nat.pow_le_mono_r; lia).
+  replace (2 ^ (2 * n)) with (2 ^ n * 2 ^ n) in H by (rewrite <- Nat.pow_add_r; f_equal; lia).
+  eapply Nat.le_trans; [exact H|]. apply Nat.mul_le_mono; exact Hs. Qed.
+Lemma size_elements t : size t = length (elements t).
+Proof. induction t as [|c l IHl x r IHr]; [reflexivity|]. cbn [TreeModel.size TreeModel.elements]. rewrite app_length. cbn [length]. lia. Qed.
 End Tree.
 Print Assumptions tremove_ok.
 Print Assumptions tput_ok.
